@@ -24,6 +24,17 @@ func (lruEngine) Budget(tier string) int {
 }
 
 func (lruEngine) Corpus() []Case {
+	cs := lruCorpusBase()
+	// keys that collide under common 32-bit hash functions: the cache is indexed by the KEY
+	for _, pr := range collidingSuffixes("GET/u/") {
+		k1, k2 := hx("GET/u/"+pr[0]), hx("GET/u/"+pr[1])
+		cs = append(cs, Case{Ops: []string{"new 4", "set " + k1 + " 1", "get " + k2, "has " + k2, "set " + k2 + " 2", "get " + k1, "get " + k2, "keys", "len",
+			"del " + k2, "get " + k1, "has " + k2, "keys", "len"}, Tag: "corpus-collide"})
+	}
+	return cs
+}
+
+func lruCorpusBase() []Case {
 	return []Case{
 		{Ops: []string{"new 2", "set 61 1", "set 62 2", "get 61", "set 63 3", "keys", "len", "has 62", "del 63", "keys"}},
 		{Ops: []string{"new 0", "set 61 1", "len", "keys", "get 61"}},
